@@ -34,7 +34,7 @@ def strategy(tier):
 
 
 def budget(tier):
-    return 2000 if tier == "quick" else 150000
+    return 2000 if tier == "quick" else 80000
 
 
 def _steady_ok(P):
